@@ -137,12 +137,13 @@ def ref_addrparse(arg, c):
         elif ch == b'"': quoted = not quoted
         else: out.append(ch)
     a = b"".join(out)
-    if c["localiphost"] is not None:
+    lh = c["localiphost"] if c["localiphost"] is not None else c["local"]      # qmail-control: localiphost defaults to me
+    if lh is not None:
         j = a.rfind(b"@")
         if j >= 0:
             m = re.match(rb"^\[(\d+)\.(\d+)\.(\d+)\.(\d+)\]$", a[j + 1:])
             if m and tuple(int(x) % 256 for x in m.groups()) in ((127, 0, 0, 1), (0, 0, 0, 0)):
-                a = a[:j + 1] + c["localiphost"]
+                a = a[:j + 1] + lh
     return None if len(a) + 1 > 900 else a
 
 def ref_rcpthosts(a, c):
@@ -255,7 +256,7 @@ def cfg_args(c):
     H = vlib.hx
     def optl(v): return "N" if v is None else (",".join(H(x) for x in v) or "E")
     return "%s %s %s %s %s %d %s %s %s %s %s" % (
-        "N" if c["localiphost"] is None else H(c["localiphost"]), "127.0.0.1,0.0.0.0", optl(c["rcpthosts"]),
+        H(c["local"]) if c["localiphost"] is None else H(c["localiphost"]), "127.0.0.1,0.0.0.0", optl(c["rcpthosts"]),
         ",".join(H(x) for x in c["morercpthosts"]) or "-", optl(c["badmailfrom"]), c["databytes"],
         "N" if c["relayclient"] is None else H(c["relayclient"]), H(c["remotehost"]), H(c["remoteip"]),
         "N" if c["remoteinfo"] is None else H(c["remoteinfo"]), H(c["local"]))
